@@ -13,10 +13,10 @@ pub mod q2 {
       relation r2(i64, i64, i64);
       relation r3(i64, i64);
       relation r4(i64, i64);
-      r1(v0, v0) <-- let v0 = 0, r0(1);
-      r1(v3, v3) <-- if let Some(v0) = None::<i64>, r1(v0, v1), r0(v2) if (v0 < 3), if let Some(v3) = Some(0);
+      r1(v0, v0) <-- let v0 = 0, r0(1), if (v0 <= 6);
+      r1(v3, v3) <-- if let Some(v0) = None::<i64>, r1(v0, v1), r0(v2) if (v0 < 3), if let Some(v3) = Some(0), if (v3 <= 6);
       r3(v0, v1) <-- r1(v0, v1), r3(v0, v0), r1(v1, v2);
-      r2(v1, v0, ((*v1) + 1)) <-- if let Some(v0) = Some(2), r3(3, v1) if (v0 < 5), if ((*v1) < 6);
+      r2(v1, v0, ((*v1) + 1)) <-- if let Some(v0) = Some(2), r3(3, v1) if (v0 < 5), if (v0 <= 6), if ((*v1) < 6);
    }
    pub struct Inst { p: Prog, pool: Option<ascent::rayon::ThreadPool> }
    pub fn make(pool: Option<usize>) -> Box<dyn Driver> {
@@ -58,10 +58,10 @@ pub mod q6 {
       relation r3(i64, i64);
       relation r4(i64, i64);
       r1((v0 + 1)) <-- let v0 = 3, r0(v1, v0), if (v0 < 6);
-      r1(v2) <-- if let Some(v0) = Some(1), r1(1), r0(v1, v0) if (v0 < 3) let v2 = ((*v1) + 0);
+      r1(v2) <-- if let Some(v0) = Some(1), r1(1), r0(v1, v0) if (v0 < 3) let v2 = ((*v1) + 0), if (v2 <= 6);
       r2(v0, v1, v2) <-- r0(v0, v1), r3(((*v0) + 1), v2);
       r1(v0) <-- r0(v0, v1) if ((*v0) < 3), r4(v1, v2) if ((*v2) != (*v1));
-      r4(v2, v2) <-- if let Some(v0) = Some(1), r2(v1, v0, v0), let v2 = v0;
+      r4(v2, v2) <-- if let Some(v0) = Some(1), r2(v1, v0, v0), let v2 = v0, if (v2 <= 6);
       r2(v5, v5, v3) <-- r3(v0, v1) if ((*v1) < 4) let v2 = ((*v0) + 1), r1(v3), for v4 in [1, 0, 3], r3(v5, 3), for v6 in [4];
    }
    pub struct Inst { p: Prog, pool: Option<ascent::rayon::ThreadPool> }
@@ -104,14 +104,14 @@ pub mod q10 {
       relation r3(i64, i64);
       relation r4(i64, i64);
       relation r5(i64);
-      r2(v0, v1) <-- if let Some(v0) = Some(3), r1(v0, v1);
+      r2(v0, v1) <-- if let Some(v0) = Some(3), r1(v0, v1), if (v0 <= 6);
       r3(2, ((*v1) + 1)) <-- r2(2, v0), r1(v1, v0) if ((*v1) != 5), let v2 = 0, if ((*v1) < 6);
       r4(v1, v1) <-- r3(v0, v1);
       r5(v1) <-- r4(3, v0) if ((*v0) < 1), for v1 in [4, 4, 0], r5(v0);
       r4(v0, v1) <-- r3(v0, v1) if ((*v0) < 3), r3(v1, v2) if ((*v2) != (*v1));
       r2(v0, v8) <-- if let Some(v9) = Some(1), r3(v0, v1), r1(v1, v9) let v8 = ((*v0) + 1);
       r2(1, ((*v0) + 1)) <-- r3(3, 2), r1(v0, v1), if ((*v0) < 6);
-      r3(v0, (v0 + 1)) <-- r3(2, 0), let v0 = 4, if (v0 < 6);
+      r3(v0, (v0 + 1)) <-- r3(2, 0), let v0 = 4, if (v0 <= 6), if (v0 < 6);
    }
    pub struct Inst { p: Prog, pool: Option<ascent::rayon::ThreadPool> }
    pub fn make(pool: Option<usize>) -> Box<dyn Driver> {
@@ -154,14 +154,14 @@ pub mod q14 {
       relation r3(i64, i64);
       relation r4(i64);
       relation r5(i64, i64);
-      r3(v1, v1) <-- if let Some(v0) = Some(0), r1(v0), let v1 = v0;
+      r3(v1, v1) <-- if let Some(v0) = Some(0), r1(v0), let v1 = v0, if (v1 <= 6);
       r3(v1, ((*v0) + 1)) <-- r3(v0, v1), r3(((*v1) + 1), 2) if ((*v1) < 2) let v2 = ((*v1) + 0), for v3 in 2..3, if ((*v0) < 6);
       r5(v0, v1) <-- for v9 in 0..3, r5(v0, v1), r5(v9, v1);
       r5(v0, v1) <-- r5(v0, v1), r5(v1, v1);
       r3(v2, v2) <-- r0(v0) if ((*v0) != 1) let v1 = ((*v0) + 0), if ((*v0) == 1), r1(v2), r0(v3);
       r2(v1, ((*v1) + 1)) <-- if let Some(v0) = Some(2), r2(v0, v1), if ((*v1) < 6);
       r3(1, ((*v2) + 1)) <-- r4(v0) if ((*v0) < 2), r3(v1, v2), r1(v2), let v3 = (*v2), if ((*v2) < 6);
-      r2(3, v0) <-- r3(2, 2), let v0 = 0;
+      r2(3, v0) <-- r3(2, 2), let v0 = 0, if (v0 <= 6);
    }
    pub struct Inst { p: Prog, pool: Option<ascent::rayon::ThreadPool> }
    pub fn make(pool: Option<usize>) -> Box<dyn Driver> {
